@@ -1146,11 +1146,31 @@ def build(script, obs=None):
     errs = _Errs()
     phases = []
     for ph in script["phases"]:
-        with CodeBuilder(ph["name"]) as cb:
-            replay_ops(cb, ph["body"], obs, errs, {})
+        # ("shared_ids": every phase is written with a builder of the SAME name, so the phases' statement ids
+        # coincide -- ids only have to be unique within a phase)
+        body = ph["body"]
+        if script.get("shared_ids"):
+            # (restart_step() switches to the BUILDER's name; written out with the phase's name here)
+            def named(ops):
+                out = []
+                for op in ops:
+                    if op[0] == "restart":
+                        op = ["switch", ph["name"]]
+                    elif op[0] == "if":
+                        op = [op[0], op[1], named(op[2]), named(op[3]), None if op[4] is None else named(op[4])] \
+                            + list(op[5:])
+                    out.append(op)
+                return out
+            body = named(body)
+        with CodeBuilder("step" if script.get("shared_ids") else ph["name"]) as cb:
+            replay_ops(cb, body, obs, errs, {})
             if obs is not None:
                 obs.aliases = getattr(obs, "aliases", {})
-        phases.append(cb.as_execution_phase(ph["next"]))
+        if script.get("shared_ids"):
+            from dagrt.language import ExecutionPhase
+            phases.append(ExecutionPhase(ph["name"], ph["next"], frozenset(cb.statements)))
+        else:
+            phases.append(cb.as_execution_phase(ph["next"]))
     return DAGCode.from_phases_list(phases, script["initial"])
 
 
